@@ -1,6 +1,17 @@
 """C13 — cross-file references: path algebra (exhaustive), dependency queries, linked targets."""
 from vcheck import *
 
+MANIFEST = {
+    "id": "C13",
+    "text": "Coq theorems over the path model (resolve = stack-machine spec, result is normal and a fixed point of normalize, "
+            "absolute references ignore the base, result depends only on the referring file's directory, normalize idempotent), "
+            "for all strings; the model is tied to the code by exhaustive enumeration of all (base, rel) pairs up to 3 (quick) / 4 "
+            "(thorough) segments through the hook plus dependency queries and emitted G[..]/R[..] lookups through the public API.",
+    "note": "Trusted: Coq kernel, extraction (ExtrOcamlBasic), OCaml driver, Rust harness. The Gallina model of path.rs is hand-written; "
+            "its tie to the code is the correspondence run (exhaustive up to the stated bound, sampled beyond).",
+    "technique": "Coq proof (induction over segment lists) + exhaustive model/implementation correspondence via extracted OCaml",
+}
+
 THEOREMS = ["C13_resolve_spec", "C13_resolve_normal", "C13_resolve_is_normal", "C13_resolve_abs",
             "C13_resolve_dir_only", "C13_resolve_toplevel_file", "C13_normalize_idem", "C13_resolve_normal_base"]
 
